@@ -21,6 +21,20 @@ CLAIMED = {
             'Pixel-set model in vf/props/c19.py; Python int / set semantics; '
             'from_float checked to 4 ulp off the dyadic lattice.',
             'DESIGN.md section 5, C19'),
+    'C01': ('exploration',
+            'Hypothesis property test: library membership vs a reference '
+            'written from the geometric definitions, with an explicit '
+            'float-rounding band; metamorphic include-flip; answer-shape checks',
+            'Random search over all pixel classes x sizes over 9 decades x any '
+            'angle/unit x aligned/far centres x query layouts; every definite '
+            'point is compared with an independent reference (vertical-ray '
+            'even-odd for polygons, margins for conics/boxes). Sensitive to '
+            'a 1e-7 relative change of a radius (mutant run). Not a proof: '
+            'points inside the rounding band are skipped.',
+            'Reference model vf/ref/geometry.py (float64, angles reduced in '
+            'their own unit); numpy; astropy unit conversion for building '
+            'the inputs.',
+            'DESIGN.md section 5, C01'),
 }
 
 PENDING_REASON = ('check designed (DESIGN.md section 5) but not yet built and '
